@@ -60,6 +60,8 @@ class StdioClient:
 
         self.process: Optional[anyio.abc.Process] = None
         self.tg: Optional[anyio.abc.TaskGroup] = None
+        # Set when _stdin_writer has written everything it was given
+        self._writer_done: Optional[anyio.Event] = None
 
         self._streams_initialized: bool = False
 
@@ -346,6 +348,9 @@ class StdioClient:
         except Exception as e:
             logger.error(f"stdin_writer error: {e}")
             logger.debug("Traceback:\n%s", traceback.format_exc())
+        finally:
+            if self._writer_done is not None:
+                self._writer_done.set()
 
     # ------------------------------------------------------------------ #
     # Public API for request lifecycle (for test compatibility)
@@ -458,6 +463,7 @@ class StdioClient:
 
             self.tg = anyio.create_task_group()
             await self.tg.__aenter__()
+            self._writer_done = anyio.Event()
             self.tg.start_soon(self._stdout_reader)
             self.tg.start_soon(self._stdin_writer)
 
@@ -475,6 +481,14 @@ class StdioClient:
                 # scope was cancelled, this checkpoint must not skip the shutdown
                 with anyio.CancelScope(shield=True):
                     await self._outgoing_send.aclose()
+
+            # Messages already accepted on the write stream are still written:
+            # give the writer a short, bounded chance to drain them before the
+            # tasks are cancelled (a child that does not read must not hold
+            # the shutdown up)
+            if self._writer_done is not None:
+                with anyio.move_on_after(0.5, shield=True):
+                    await self._writer_done.wait()
 
             if self.tg:
                 # Cancel all tasks
